@@ -15,10 +15,17 @@ What is decided, for every list length:
   * null      x->next / finishing through a pointer that can be null
   * at exit   every unfinished node is reachable from the returned pointer or an escaped root
 
-Order (that a reversal really reverses) is not tracked.  Anything outside the modelled statement forms raises
-Unsupported (-> analysis broken), never a silent pass.
+Order: every node carries the interval of positions it occupies in the list it was taken from (position 0 = the
+element the detached head pointed to, i.e. the NEWEST entry of a push-front stack) and a `many` node the direction
+its inner links run in ('orig': towards older entries, 'rev': towards newer ones, 'mixed': neither).  Folding two
+adjacent nodes keeps the direction when the link agrees with it; materialising splits the interval accordingly.
+With `ordered_finishers` set, finishing a node while an OLDER node of the same input is still unfinished is reported
+('order'); `direction_of(heap, start)` tells in which direction a returned list runs.  An order that cannot be
+established ('mixed') is Unsupported where it matters, never a pass.
+Anything outside the modelled statement forms raises Unsupported (-> analysis broken), never a silent pass.
 """
 import itertools
+from fractions import Fraction
 
 NULL = 0  # the null "node"
 
@@ -28,14 +35,16 @@ class Unsupported(Exception):
 
 
 class Heap:
-    """nodes: id -> [kind, next, finished];  vars: key -> node id (or NULL / None = not a tracked pointer)"""
-    __slots__ = ('nodes', 'vars', 'fresh', 'escaped')
+    """nodes: id -> [kind, next, finished, lo, hi, dir];  vars: key -> node id (or NULL / None = not a tracked
+    pointer).  [lo, hi) = positions in the input list (None = unknown), dir = 'orig' | 'rev' | 'mixed'"""
+    __slots__ = ('nodes', 'vars', 'fresh', 'escaped', 'ninputs')
 
     def __init__(self):
         self.nodes = {}
         self.vars = {}
         self.fresh = 1
         self.escaped = frozenset()
+        self.ninputs = 0
 
     def copy(self):
         h = Heap()
@@ -43,13 +52,20 @@ class Heap:
         h.vars = dict(self.vars)
         h.fresh = self.fresh
         h.escaped = self.escaped
+        h.ninputs = self.ninputs
         return h
 
-    def new(self, kind, nxt=NULL, finished=False):
+    def new(self, kind, nxt=NULL, finished=False, lo=None, hi=None, direction='orig'):
         i = self.fresh
         self.fresh += 1
-        self.nodes[i] = [kind, nxt, finished]
+        self.nodes[i] = [kind, nxt, finished, lo, hi, direction]
         return i
+
+    def new_input(self, kind):
+        """a freshly detached list: positions [k, k+1), links run from the newest to the oldest entry"""
+        base = Fraction(self.ninputs)
+        self.ninputs += 1
+        return self.new(kind, NULL, False, base, base + 1, 'orig')
 
     # ---- structure
     def preds(self, n):
@@ -97,8 +113,25 @@ class Heap:
                 p = ps[0]
                 if p == n or self.nodes[p][2] != self.nodes[n][2]:
                     continue
-                self.nodes[p][0] = 'many'
-                self.nodes[p][1] = self.nodes[n][1]
+                P, N = self.nodes[p], self.nodes[n]
+                # direction of the merged chain: p links to n
+                d = 'mixed'
+                lo = hi = None
+                if P[3] is not None and N[3] is not None:
+                    lo, hi = min(P[3], N[3]), max(P[4], N[4])
+                    pd = P[5] if P[0] == 'many' else None
+                    nd = N[5] if N[0] == 'many' else None
+                    if P[4] == N[3] and pd in (None, 'orig') and nd in (None, 'orig'):
+                        d = 'orig'  # p is newer than n and adjacent: the link runs towards older entries
+                    elif N[4] == P[3] and pd in (None, 'rev') and nd in (None, 'rev'):
+                        d = 'rev'
+                    else:
+                        # not neighbours in the input list (or chains of opposite direction): keeping them apart
+                        # loses nothing; the number of such seams is bounded by the pointed nodes between them
+                        continue
+                P[0] = 'many'
+                P[1] = N[1]
+                P[3], P[4], P[5] = lo, hi, d
                 del self.nodes[n]
                 changed = True
 
@@ -125,7 +158,11 @@ class Heap:
                 st.append(self.nodes[m][1])
         vs = tuple((repr(k), order.get(self.vars[k], 0) if self.vars[k] else (0 if self.vars[k] == NULL else -1))
                    for k in sorted(self.vars, key=repr))
-        ns = tuple(sorted((order[n], self.nodes[n][0], order.get(self.nodes[n][1], 0), self.nodes[n][2])
+        bounds = sorted({b for n in self.nodes for b in self.nodes[n][3:5] if b is not None})
+        rk = {b: i for i, b in enumerate(bounds)}
+        ns = tuple(sorted((order[n], self.nodes[n][0], order.get(self.nodes[n][1], 0), self.nodes[n][2],
+                           rk.get(self.nodes[n][3], -1), rk.get(self.nodes[n][4], -1),
+                           self.nodes[n][5] if self.nodes[n][0] == 'many' else '')
                           for n in self.nodes if n in order))
         es = tuple(sorted(order.get(n, 0) for n in self.escaped))
         return (vs, ns, es)
@@ -137,10 +174,69 @@ class Heap:
         a = self.copy()
         a.nodes[n][0] = 'one'
         b = self.copy()
-        rest = b.new('many', b.nodes[n][1], b.nodes[n][2])
+        kind, nxt, fin, lo, hi, d = b.nodes[n]
+        if lo is None or d == 'mixed':
+            rest = b.new('many', nxt, fin, lo, hi, d)  # positions unknown: both parts keep the hull
+        else:
+            mid = (lo + hi) / 2
+            if d == 'orig':   # the first element is the newest of the chain
+                rest = b.new('many', nxt, fin, mid, hi, d)
+                b.nodes[n][3], b.nodes[n][4] = lo, mid
+            else:             # 'rev': the first element is the oldest of the chain
+                rest = b.new('many', nxt, fin, lo, mid, d)
+                b.nodes[n][3], b.nodes[n][4] = mid, hi
         b.nodes[n][0] = 'one'
         b.nodes[n][1] = rest
         return [a, b]
+
+    def older_unfinished(self, n):
+        """-> (definitely, possibly): is there an unfinished node of the same input list that is older than n?"""
+        lo, hi = self.nodes[n][3], self.nodes[n][4]
+        definitely = possibly = False
+        for m, v in self.nodes.items():
+            if m == n or v[2]:
+                continue
+            if lo is None or v[3] is None:
+                possibly = True
+                continue
+            if v[3] // 1 != lo // 1:
+                continue  # a node of another input list
+            if v[3] >= hi:
+                definitely = True   # entirely behind n in the detached list = pushed earlier
+            elif v[4] > lo:
+                possibly = True     # overlapping hulls (a 'mixed' chain)
+        return definitely, possibly
+
+    def direction_of(self, start):
+        """'rev' / 'orig' / 'mixed' / 'single': the direction of the chain that starts at node `start`"""
+        dirs = set()
+        n = start
+        seen = set()
+        prev = None
+        count = 0
+        while n and n in self.nodes and n not in seen:
+            seen.add(n)
+            v = self.nodes[n]
+            count += 2 if v[0] == 'many' else 1
+            if v[0] == 'many':
+                dirs.add(v[5])
+            if prev is not None:
+                P = self.nodes[prev]
+                if P[3] is None or v[3] is None:
+                    dirs.add('mixed')
+                elif P[4] == v[3]:
+                    dirs.add('orig')
+                elif v[4] == P[3]:
+                    dirs.add('rev')
+                else:
+                    dirs.add('mixed')
+            prev = n
+            n = v[1]
+        if count <= 1:
+            return 'single'
+        if len(dirs) == 1:
+            return next(iter(dirs))
+        return 'mixed'
 
 
 class Problem:
@@ -160,7 +256,7 @@ class Analysis:
     """interprets one function (helpers that touch `next` are inlined) over sets of abstract heaps"""
     max_states = 400
 
-    def __init__(self, fb, inputs, is_helper=None, next_field='yaclib::detail::Node::next'):
+    def __init__(self, fb, inputs, is_helper=None, next_field='yaclib::detail::Node::next', ordered_finishers=()):
         """inputs(fn, node) -> 'list' (non-empty input list), 'maybe-list', 'single', 'maybe-single' (one node whose
         next is null) or None: which expressions introduce the list under analysis (e.g. the exchange that detaches
         it)"""
@@ -168,6 +264,7 @@ class Analysis:
         self.inputs = inputs
         self.is_helper = is_helper or (lambda fn, g: False)
         self.next_field = next_field
+        self.ordered_finishers = tuple(ordered_finishers)  # finishers that must run oldest entry first
         self.problems = {}
         self.nstates = 0
 
@@ -203,7 +300,7 @@ class Analysis:
             if kind.startswith('maybe-'):
                 out.append((h, NULL))
             h2 = h.copy()
-            out.append((h2, h2.new('one' if kind.endswith('single') else 'many')))
+            out.append((h2, h2.new_input('one' if kind.endswith('single') else 'many')))
             return out
         if k == 'DeclRefExpr':
             if 'id' in n:
@@ -363,6 +460,15 @@ class Analysis:
                     if h2.nodes[b][2]:
                         self.problem('twice', fn, n, 'a list node is finished twice')
                         continue
+                    if n['cn'].split('::')[-1] in self.ordered_finishers:
+                        definitely, possibly = h2.older_unfinished(b)
+                        if definitely:
+                            self.problem('order', fn, n, 'an entry is finished while an OLDER entry of the same '
+                                         'detached list is still pending: the entries do not run in the order they '
+                                         'were pushed')
+                        elif possibly:
+                            raise Unsupported('the order in which the entries are finished cannot be established at '
+                                              '%s' % fn.loc(n))
                     h2.nodes[b][2] = True
                     self.settle(fn, n, h2)
                     out.append(h2)
